@@ -774,6 +774,12 @@ class SVG:
             self.svg_root.text = None
         self.svg_root.insert(0, defs)
 
+        # gradients take from their templates what these say in the source, so all of
+        # them do it before any gradient is rewritten (a template can come later in
+        # the document than the gradients that refer to it)
+        for gradient in self._select_gradients():
+            self._apply_gradient_template(gradient)
+
         for context in to_process:
             if "clipPath" in context.path:
                 _safe_remove(context.element)
